@@ -128,9 +128,9 @@ def region(v):
 
 class C10:
     id = 'C10'
-    props_files = ['SmoothProps/C10.lean']
-    props_module = 'SmoothProps.C10'
-    lean_targets = ['SmoothProps.C10']
+    props_files = ['SmoothProps/C10.lean', 'SmoothProps/SrcTieLogicC10.lean']
+    props_module = 'SmoothProps.C10All'
+    lean_targets = ['SmoothProps.C10All']
     rule = ('harness/optim.cpp PART 0: J kind (full, rankdef, zerocol, dupcol, wide, illscaled, sparse, tiny, dyadic, zeroJ) x '
             'r kind (rand, zero, consistent, big, tinyr, near_orth) x d kind (clamp(colnorm), log-uniform 1e-3..1e3, ones) x sizes 1..40 x '
             'Delta, lambda log-uniform 1e-6..1e6; every line audited in exact arithmetic (driver op opt_tr); '
